@@ -60,7 +60,8 @@ def item_identity(rep: Report, c: Fn, item_field: str) -> None:
             n = s.node
             tests = []
             if isinstance(n, (ast.If, ast.While, ast.IfExp, ast.Assert)):
-                tests.append(n.test)
+                from ..rules import effective_test
+                tests.append(effective_test(m, n.test))
             elif isinstance(n, ast.BoolOp) and not isinstance(m.module.parents.get(n), (ast.If, ast.While, ast.IfExp, ast.Assert, ast.BoolOp, ast.UnaryOp)):
                 tests.append(n)
             for t in tests:
